@@ -7,7 +7,8 @@ type case = {
   mode : string;               (* "sync" | "restore" *)
   parallel : int; tdb : int;
   dbblack : string list; dbwhite : string list; keyblack : string list; keywhite : string list; slots : string list; filterlua : bool;
-  units : unit_ list; fail : string option }
+  units : unit_ list; fail : string option;
+  cut : int (* > 0: only the first [cut] bytes of the RDB image reach the tool (the source went away before the end-of-file opcode) *) }
 
 let id = "C07"
 let rule = "RDB files with 5..60 uniquely named keys spread over up to 6 databases selected in any order (databases revisited), lua script records in between, \
@@ -55,34 +56,42 @@ let gen_case st mode =
     | 0 -> ([ rnd_pick st prefixes ], []) | 1 -> ([], [ rnd_pick st prefixes; "k" ]) | _ -> ([], []) in
   { mode; parallel = rnd_pick st [ 1; 2; 4; 8; 32 ]; tdb = rnd_pick st [ -1; -1; 0; 2 ]; dbblack; dbwhite; keyblack; keywhite;
     slots = (if rnd_int st 4 = 0 then some_slots () else []); filterlua = rnd_int st 3 = 0; units;
-    fail = (match rnd_int st 12 with 0 | 1 -> Some (List.nth !names (rnd_int st (List.length !names))) | 2 -> Some script_fail | _ -> None) }
+    fail = (match rnd_int st 12 with 0 | 1 -> Some (List.nth !names (rnd_int st (List.length !names))) | 2 -> Some script_fail | _ -> None); cut = 0 }
 
 let gen st tier =
   let n = if tier = "thorough" then 4000 else 300 in
-  List.init n (fun i -> gen_case st (if i mod 3 = 2 then "restore" else "sync"))
+  List.init n (fun i ->
+    let c = gen_case st (if i mod 3 = 2 then "restore" else "sync") in
+    (* one case in fifteen: the RDB stream stops somewhere before its end-of-file opcode *)
+    if rnd_int st 15 = 0 then (let len = String.length (Rdbgen.image 9 c.units) in { c with fail = None; cut = 9 + rnd_int st (max 1 (len - 9 - 9)) }) else c)
 
 let corpus = [
   (* F22 witness: restore mode, the target refuses one key *)
   { mode = "restore"; parallel = 2; tdb = -1; dbblack = []; dbwhite = []; keyblack = []; keywhite = []; slots = []; filterlua = false;
-    units = [ UKey (raw "a", VStr (N0, raw "1")); UKey (raw "b", VStr (N0, raw "2")) ]; fail = Some "b" };
+    units = [ UKey (raw "a", VStr (N0, raw "1")); UKey (raw "b", VStr (N0, raw "2")) ]; fail = Some "b"; cut = 0 };
   (* F17 witness: a lua record in a blacklisted database *)
   { mode = "sync"; parallel = 1; tdb = -1; dbblack = [ "0" ]; dbwhite = []; keyblack = []; keywhite = [ "zz" ]; slots = []; filterlua = false;
-    units = [ ULua (L6, raw "return 1"); USelect (L6, n_of_int 1); UKey (raw "zz1", VStr (N0, raw "1")) ]; fail = None };
+    units = [ ULua (L6, raw "return 1"); USelect (L6, n_of_int 1); UKey (raw "zz1", VStr (N0, raw "1")) ]; fail = None; cut = 0 };
   (* the target refuses the script: both modes must report it *)
   { mode = "sync"; parallel = 1; tdb = -1; dbblack = []; dbwhite = []; keyblack = []; keywhite = []; slots = []; filterlua = false;
-    units = [ USelect (L6, n_of_int 0); UKey (raw "a", VStr (N0, raw "1")); ULua (L6, raw "return 1"); UKey (raw "b", VStr (N0, raw "2")) ]; fail = Some script_fail };
+    units = [ USelect (L6, n_of_int 0); UKey (raw "a", VStr (N0, raw "1")); ULua (L6, raw "return 1"); UKey (raw "b", VStr (N0, raw "2")) ]; fail = Some script_fail; cut = 0 };
   { mode = "restore"; parallel = 3; tdb = -1; dbblack = []; dbwhite = []; keyblack = []; keywhite = []; slots = []; filterlua = false;
-    units = [ USelect (L6, n_of_int 0); UKey (raw "a", VStr (N0, raw "1")); ULua (L6, raw "return 1"); UKey (raw "b", VStr (N0, raw "2")) ]; fail = Some script_fail } ]
+    units = [ USelect (L6, n_of_int 0); UKey (raw "a", VStr (N0, raw "1")); ULua (L6, raw "return 1"); UKey (raw "b", VStr (N0, raw "2")) ]; fail = Some script_fail; cut = 0 };
+  (* the RDB stream ends in the middle of the second key: the run must not be reported as a success *)
+  { mode = "restore"; parallel = 2; tdb = -1; dbblack = []; dbwhite = []; keyblack = []; keywhite = []; slots = []; filterlua = false;
+    units = [ USelect (L6, n_of_int 0); UKey (raw "a", VStr (N0, raw "1")); UKey (raw "bbbbbbbb", VStr (N0, raw "22222222")); UKey (raw "c", VStr (N0, raw "3")) ]; fail = None; cut = 22 };
+  { mode = "sync"; parallel = 1; tdb = -1; dbblack = []; dbwhite = []; keyblack = []; keywhite = []; slots = []; filterlua = false;
+    units = [ USelect (L6, n_of_int 0); UKey (raw "a", VStr (N0, raw "1")); UKey (raw "bbbbbbbb", VStr (N0, raw "22222222")); UKey (raw "c", VStr (N0, raw "3")) ]; fail = None; cut = 16 } ]
 
 let hexl l = if l = [] then "-" else String.concat "," (List.map hex_of_string l)
 let to_line c =
   Printf.sprintf "%s %d|%d|rewrite|%s|%s|%s|%s|%s|%d|1000000000 %s %s" c.mode c.parallel c.tdb (hexl c.dbblack) (hexl c.dbwhite) (hexl c.keyblack)
-    (hexl c.keywhite) (hexl c.slots) (if c.filterlua then 1 else 0) (hex_of_string (Rdbgen.image 9 c.units))
+    (hexl c.keywhite) (hexl c.slots) (if c.filterlua then 1 else 0) (hex_of_string (let img = Rdbgen.image 9 c.units in if c.cut > 0 then String.sub img 0 (min c.cut (String.length img)) else img))
     (match c.fail with Some k -> hex_of_string k | None -> "-")
 let show c =
   Printf.sprintf "%s, parallel=%d target.db=%d db.black=[%s] db.white=[%s] key.black=[%s] key.white=[%s] slots=[%s] filter.lua=%b%s; file: %s"
     c.mode c.parallel c.tdb (String.concat "," c.dbblack) (String.concat "," c.dbwhite) (String.concat "," c.keyblack) (String.concat "," c.keywhite)
-    (String.concat "," c.slots) c.filterlua (match c.fail with Some k when k = script_fail -> "; the target refuses every SCRIPT LOAD" | Some k -> "; the target refuses RESTORE of " ^ k | None -> "")
+    (String.concat "," c.slots) c.filterlua ((if c.cut > 0 then Printf.sprintf "; only the first %d bytes of the RDB arrive" c.cut else "") ^ match c.fail with Some k when k = script_fail -> "; the target refuses every SCRIPT LOAD" | Some k -> "; the target refuses RESTORE of " ^ k | None -> "")
     (let s = String.concat "; " (List.map Rdbgen.show_unit c.units) in if String.length s > 1500 then String.sub s 0 1500 ^ "..." else s)
 
 let fcfg_of c = { key_black = List.map bs c.keyblack; key_white = List.map bs c.keywhite; db_black = List.map bs c.dbblack; db_white = List.map bs c.dbwhite;
@@ -115,6 +124,11 @@ let judge c obs =
   let failing = match c.fail with
     | Some k when k = script_fail -> exp_scripts <> []
     | Some k -> List.exists (fun (_, k', _) -> k' = k) exp_keys | None -> false in
+  if c.cut > 0 then begin
+    (* a stream that stops before its end-of-file opcode: whatever was restored, the run must not end as a success *)
+    if aborted || Srcgen.field obs "ret" = Some "err" then Agree
+    else fail "oracle" (c.mode ^ ":truncated-rdb-reported-as-success") "the run reports that the RDB stream ended early" impl "the RDB stream stopped before its end-of-file opcode but the run finished as a success"
+  end else
   if failing then begin
     (* the run must report the failure *)
     if aborted || Srcgen.field obs "ret" = Some "err" then Agree
